@@ -9,7 +9,7 @@ PROPS = {
             (r"read_varint|write_varint", "varint"),
             (r".", "packets"),
         ],
-        "sweep": ["varint", "varlong", "packets"],
+        "sweep": ["varint", "varlong", "packets", "frames"],
         "explanation": "Every reader/writer primitive, enum table and packet (de)serialiser of passage-packets is extracted from /repo on "
                        "this run and verified by Verus against the wire-format spec functions written from the protocol; decoders carry the "
                        "inverse contract for all values, encoders the exact-layout contract.",
@@ -93,7 +93,7 @@ PROPS = {
         "kani": ["U2b"],
         "level": "proof",
         "witness": [(r"ping|status", "order"), (r".", "session")],
-        "sweep": ["session", "order"],
+        "sweep": ["session", "order", "frames"],
         "explanation": "The reference automaton is the protocol grammar of the property: every event trace listen can produce (for all client bytes, "
                        "adapter results, timer firings) must be accepted; any packet sent out of order, a reply after an unexpected id, or an event "
                        "after Transfer/Disconnect drives it to Bad.",
@@ -108,7 +108,7 @@ PROPS = {
         "bounded": [("keepalive", "the wall-clock half of C07 (a Keep Alive at least every 16 s while waiting, timeout Disconnect when the next one is due, Transfer as soon as "
                      "routing completes) is not a statement about a sequential function: the real Connection::listen runs under tokio's paused clock with discovery / filter / "
                      "strategy latencies from {0, 5, 21, 37} s, Client Information after {0, 3, 20, 35} s and five echo policies (prompt, delayed 10 s, never, wrong id, duplicate + "
-                     "unsolicited): 1280 schedules, the packet timeline must be exactly the demanded one")],
+                     "unsolicited): 1280 schedules, the packet timeline must be exactly the demanded one; plus 120 schedules with a login of 28 s or 45 s, judged by the property itself (gaps <= 16 s, one outstanding, an echoing client survives, a silent one is dropped within 16 s)")],
         "sweep": ["keepalive"],
         "explanation": "State logic only: keep_alive_id == outstanding(event log) is a verified representation invariant of receive_packet, "
                        "handle_keep_alive and keep_alive; the tick branch sends the localized timeout Disconnect and fails iff an id is outstanding, else "
@@ -140,7 +140,7 @@ PROPS = {
         "units": ["U9", "U11", "U4", "U3", "U2"],
         "level": "proof",
         "witness": [(r"max_packet_length", "limits"), (r"timeout|deadline|socket_wait", "deadline"), (r"listen|handle", "limits")],
-        "sweep": ["limits", "deadline"],
+        "sweep": ["limits", "deadline", "config_flow"],
         "explanation": "U11: src/lib.rs start() is extracted whole and verified with the rigid constants *defined* as the fields of its Config argument: the call "
                        "listener.listen(..) carries the obligations that the built Listener holds exactly the configured timeout, maximum frame length, cookie expiry and secret "
                        "(and, for C15, the configured limiter parameters and PROXY settings); Listener::listen (the accept loop) keeps them as loop invariants and calls handle under them. "
